@@ -91,6 +91,16 @@ CHECKS["C16"] = dict(
   text="Every memo field of Block / Tx is stored only on a fresh object by a constructor or by its own accessor on the cache-empty edge, with a value originating from the wrapped message or fresh memory only; accessors return the memo on the cached path and store it before returning on the computing path; each store into the per-index cache wraps msg.Transactions[k] with index k at slot k, the cache is always sized len(msg.Transactions) and the completion flag is set only after the filling loop; all index expressions of Tx(i) are proved in range from the guard. Byte equality with a fresh serialisation and TxLoc are not decided; bytes supplied to the ...FromBytes constructors are trusted.",
   note="Trusted: wire serialisation/hash functions; callers do not mutate the wire message after wrapping it.",
   ref="§3 C16")
+CHECKS["C18"] = dict(
+  technique="origin / write-effect analysis (non-destructiveness, comparator purity), structural match of Swap, agreement of the sortable view types across the three entry points, field-read sets of the comparators",
+  text="Sort sorts the slices of a fresh deep copy (not the argument's), returns that copy and writes nothing reachable from its parameter; Len and Less write only their locals and Swap exchanges exactly s[i] and s[j] (so the result is a permutation); InPlaceSort, Sort and IsSorted order inputs and outputs through the same two sortable types (one order, hence idempotence of sort then isSorted) and the comparators read exactly (previous hash, previous index) and (value, script). That the comparator is the BIP69 order for all keys (byte reversal, tie rules) is not decided.",
+  note="Trusted: wire.MsgTx.Copy deep-copies; sort.Sort permutes only via Swap.",
+  ref="§3 C18, §2.5")
+CHECKS["C19"] = dict(
+  technique="pairing rule over go/ssa: every list mutation is accompanied, in the same straight-line region, by the matching update of both totals with the same coin (who-may-write for the totals); index-consistency, loop-guard entailment and origin analysis for the selectors",
+  text="Totals clause decided for all histories: every PushBack/Remove on a coin set's list sits in a function that adds/subtracts that same coin's Value() and ValueAge() to the respective total exactly once on every path through the mutation, bulk mutations are rejected, and no other function writes the totals; a transaction built from a set spends coins[i] at input i; the prefix scan pushes only while n < MaxInputs; the min-number and max-value-age selectors sort a fresh copy descending by Value()/ValueAge() and delegate with unchanged limits. The selectors' post-conditions (in particular the min-priority heuristic) are not decided.",
+  note="Trusted: container/list semantics; sort.Sort/Reverse.",
+  ref="§3 C19")
 
 NA_REASON = {
  "C17": "Every clause with content is a statement about IEEE-754 rounding of f*1e8, a/10^k and shortest-decimal printing over 2.1e15 integers; no fact about the shape of amount.go implies or refutes it, and the two shape-level clauses (NaN/Inf rejected, unit labels) are already pinned by the suite (DESIGN.md §4).",
